@@ -205,6 +205,7 @@ func oracleC02(r *Rng, n int, thorough bool, seeds []string) *OracleResult {
 			seen[hashStr(line)] = struct{}{}
 		}
 		var what string
+		class := "v6-roundtrip"
 		func() {
 			defer func() {
 				if e := recover(); e != nil {
@@ -224,10 +225,21 @@ func oracleC02(r *Rng, n int, thorough bool, seeds []string) *OracleResult {
 			}
 			if !bytes.Equal(b, m2.ToBytes()) {
 				what = "re-encoding the decoded message gives different bytes"
+				return
+			}
+			// "as read by an independently written decoder": the RFC reading of
+			// the emitted bytes (ref6.go) is the value that was encoded
+			ref := refDecode6x(b)
+			if !ref.wellok {
+				what, class = "the encoder output is not a well-formed RFC 8415 message for the reference decoder", "v6-wire-layout"
+				return
+			}
+			if s3 := stripLabelOriginals(ref.term); s3 != s1 {
+				what, class = "RFC reading of ToBytes(m) != m: "+firstDiff(s1, s3), "v6-wire-layout:"+termDiffCtor(s1, s3, "msg")
 			}
 		}()
 		if what != "" {
-			res.fail(Failure{Oracle: "c02", Input: line, What: what, Class: "v6-roundtrip"})
+			res.fail(Failure{Oracle: "c02", Input: line, What: what, Class: class})
 		}
 		if len(res.Samples) < 3 {
 			s := line
